@@ -246,7 +246,7 @@ CLAIMED["C01"] = (
     "(kind()==String / ValueRepr arm / is_safe / escape() result for as_str, is_some on the same value), or is a "
     "reviewed entry.  Interpreter recursion is decided under C11.  These are necessary "
     "conditions that realistic regressions break (a dropped guard, a new unchecked add, an unbounded capacity); "
-    "absence of panics over the whole engine, VM operand-stack discipline and the stack cost of data recursion are "
+    "absence of panics over the whole engine, VM operand-stack discipline and the stack cost of data recursion (a template can nest a list 50000 deep through a namespace attribute in a loop; dropping, printing, comparing or hashing it overflows a 2 MiB stack - confirmed, see DESIGN.md §3 C01) are "
     "NOT decided. Later additions: (P9) slice/Vec indexing in the builtin modules is in range by construction (whole range, search results, a literal index under a dominating length test, or a reviewed entry); (P10) the interpreter's unsigned counters are only decremented after the matching increment succeeded on the same path; P3 also treats the number of call arguments as template-controlled, checks the divisor of / and %, and requires a constant bound on template-chosen iteration counts; P7 treats character columns like literals (not byte offsets).",
     "DESIGN.md §3 C01",
     "Partial claim.  The taint sources are integer parameters of the builtin modules and integer conversions of template values; arithmetic on other integers is out of scope.")
